@@ -245,9 +245,10 @@ def check(run):
                     os.remove(os.path.join(common.COQ, "Cases", n + ext))
                 except OSError:
                     pass
-        run.cov["evaluations"] = evaluations
+        run.cov["evaluations"] = len(cases)          # instruction streams judged by skeleton_eq (and wf_emitted on their changed blocks)
+        run.cov["tool_runs"] = evaluations
         run.cov["distinct_nontrivial"] = nontriv
-        run.cov["rule"] = ("whole-tool runs (input document x option set); every instruction stream is judged by skeleton_eq, every changed "
+        run.cov["rule"] = ("whole-tool runs (input document x option set); one evaluation = one instruction stream judged by skeleton_eq, every changed "
                            "block by wf_emitted (Coq); non-trivial = streams in which at least one block was replaced")
         run.cov["distribution"] = dict(dist)
         run.add_sample({"inputs": [os.path.basename(p) for p in inputs][:8], "option_sets": optsets})
